@@ -21,6 +21,18 @@ const (
 	ThoroughCases = 3000
 )
 
+// componentRule describes how the component-level cases are generated (the L2
+// part appends its own description to it: evid keeps one rule text per run).
+const componentRule = "component: case i of seed s is a pure function plan(s,i): a chaingen block tree (no-retarget preset, blocks with " +
+	"payments to / spends from the key pool, create-and-spend in one block), a start option (genesis/height/hash/unknown hash/best), " +
+	"optional start time / end block, watched addresses, outpoints and spend-by-script inputs, and a script of one of four families that " +
+	"changes the visible chain (growth, rollback highest-first + longer branch, batched filter-header writes) while the real rescan is " +
+	"(a) following notifications, (b) parked by a gate at a chosen ChainSource call / callback of its walk by height, (c) still inside " +
+	"waitForBlocks, (d) holding blocks whose filter / filter header / block fetch was scripted to fail; Updates (AddAddrs, AddInputs, " +
+	"Rewind with and without DisableDisconnectedNtfns) are issued settled, racing or while parked. Fingerprint = (family+whether a gate " +
+	"parked the rescan, deepest fork relative to the caller's position, its depth bucket, failure kinds, strongest update kind@timing, " +
+	"start kind/start time, end kind). Non-trivial = at least 3 block callbacks observed and at least one reorg, update, forced retry or park."
+
 type witness struct {
 	Case        int      `json:"case"`
 	Seed        int64    `json:"seed"`
@@ -73,15 +85,7 @@ func exitKind(s string) string {
 
 // Component runs the component-level histories and reports into r.
 func Component(r *evid.Run) {
-	r.Rule("component: case i of seed s is a pure function plan(s,i): a chaingen block tree (no-retarget preset, blocks with " +
-		"payments to / spends from the key pool, create-and-spend in one block), a start option (genesis/height/hash/unknown hash/best), " +
-		"optional start time / end block, watched addresses, outpoints and spend-by-script inputs, and a script of one of four families that " +
-		"changes the visible chain (growth, rollback highest-first + longer branch, batched filter-header writes) while the real rescan is " +
-		"(a) following notifications, (b) parked by a gate at a chosen ChainSource call / callback of its walk by height, (c) still inside " +
-		"waitForBlocks, (d) holding blocks whose filter / filter header / block fetch was scripted to fail; Updates (AddAddrs, AddInputs, " +
-		"Rewind with and without DisableDisconnectedNtfns) are issued settled, racing or while parked. Fingerprint = (family+whether a gate " +
-		"parked the rescan, deepest fork relative to the caller's position, its depth bucket, failure kinds, strongest update kind@timing, " +
-		"start kind/start time, end kind). Non-trivial = at least 3 block callbacks observed and at least one reorg, update, forced retry or park.")
+	r.Rule(componentRule)
 	r.Assume("the chaingen tree, its ground-truth BIP158 filters and the recorded previous-output scripts are correct (cross-checked against btcd in chaingen's own tests)")
 	r.Assume("the harness ChainSource is a faithful stand-in for ChainService: headers by hash only for the current chain, blocks only for known headers, " +
 		"Disconnected highest-first after each store rollback, Connected after the (batched) filter-header write, NotificationsSinceHeight as blockManager's")
